@@ -42,7 +42,7 @@ def check_case(acc: Acc, case):
     idx, d, code, kind = case["idx"], case["delay"], case["code"], case["kind"]
     corrupt = case.get("corrupt", False)
     if code != 4 or idx > 0 or corrupt or case.get("fcx") is not None:
-        acc.nontrivial(transport, case["keep"], T, R, idx, d, code, kind, corrupt, case.get("pre", "drop"), repr(case.get("mbap")), case.get("fcx"), case.get("api", False))
+        acc.nontrivial(transport, case["keep"], T, R, idx, d, code, kind, corrupt, case.get("pre", "drop"), repr(case.get("mbap")), case.get("fcx"), case.get("api", False), repr(case.get("same_tx_fragment")))
     pre = case.get("pre", "drop")
     if pre.startswith("lone") and kind != "read":
         pre = "drop"
@@ -51,6 +51,11 @@ def check_case(acc: Acc, case):
         frame = rw.rtu_exception_response(0xF7, {"read": 3, "write": 6, "write_multi": 16}[kind], code)
         frame = frame[:-1] + bytes((frame[-1] ^ 0x40,))
         script = script + [["raw", d, frame]]
+    elif case.get("same_tx_fragment") is not None and transport == "udp" and kind == "read":
+        # the answered transmission first receives a lone first fragment of a read answer (cut so that `missing` bytes are
+        # outstanding) and THEN the exception frame: the exception frame is no remainder, it must surface at once
+        cut, d0 = case["same_tx_fragment"]
+        script = script + [["combo", [["lone", cut, d0], ["exc", d, code]]]]
     elif case.get("fcx") is not None:
         # the property speaks of any frame whose function code has the high bit set (valid checksum), not only request|0x80
         fcx = case["fcx"]
@@ -141,6 +146,13 @@ def enum_job(job):
                 case = {"transport": transport, "keep": keep, "kind": kind, "T": T, "R": R, "idx": idx, "delay": delays[0],
                         "code": code, "corrupt": True}
                 _apply(acc, case)
+        if kind == "read":      # read of 8 registers: 23-byte answer; cuts leave 18, 14, 9, 7 (= an exception frame), 5, 2 bytes missing
+            for cut in (5, 9, 14, 16, 18, 21):
+                for code in (1, 2, 3, 6, 200):
+                    for idx in idxs:
+                        for (d0, d1) in ((1, 3), (2, 2), (0, 12)):
+                            _apply(acc, {"transport": transport, "keep": keep, "kind": kind, "T": T, "R": R, "idx": idx, "delay": d1,
+                                         "code": code, "same_tx_fragment": [cut, d0]})
     return acc
 
 
@@ -175,6 +187,7 @@ def hyp_job(job):
                 "delay": draw(st.integers(0, 15)), "code": draw(st.integers(0, 255)), "latency": draw(st.integers(0, 3)),
                 "pre": draw(st.sampled_from(("drop", "drop", "lone-missing-7", "lone-missing-9", "lone-missing-5"))),
                 "fcx": draw(st.one_of(st.none(), st.none(), st.integers(0x80, 0xFF))), "api": draw(st.booleans()),
+                "same_tx_fragment": draw(st.one_of(st.none(), st.none(), st.none(), st.tuples(st.integers(5, 22), st.integers(0, 8)).map(list))),
                 "mbap": draw(st.one_of(st.none(), st.none(), st.tuples(st.integers(0, 0xFFFF), st.sampled_from((0, 0, 1, 0xFFFF))).map(list)))}
 
     def body(case):
